@@ -6,7 +6,7 @@ package document
 
 // New: a document made only of objects and containers allocated by the call.
 //@ func New
-//@ props C17, C10
+//@ props C17, C10, C15
 //@ modifies nothing
 //@ ensures fresh(result) && docParts(result) && result.nextImageID == 0
 //@ ensures mediaFresh(result)
@@ -17,6 +17,9 @@ package document
 //@ ensures result.relationships != nil && fresh(result.relationships) && freshArr(result.relationships.Relationships)
 //@ ensures result.numberingManager == nil && result.footnoteManager == nil
 //@ ensures forall k string :: has(result.parts, k) ==> freshArr(result.parts[k])
+// (C15/C02) what the notes calls require of a document (zz_contracts_verif_notes.go): no registry yet, hence a good one; the package
+// and the document relationship lists are two objects
+//@ ensures fnDocOK(result) && result.relationships != result.documentRelationships
 
 // The numbering / footnote registries of the clone are fresh managers with fresh maps holding the same
 // entries. The registered definition objects themselves (*AbstractNum, *NumInstance, *Footnote, *Endnote)
